@@ -30,7 +30,8 @@ TMPL = {
          '<text slot:alpha slot:beta slot:gamma="g2">{{{{alpha}}}}{{{{beta}}}}{{{{g2}}}}</text></comp>',
 }
 TMPL["x2"] = TMPL["x"].replace("exports.k = 1;", "exports.k = 2;")     # content x after set_inline_script_content
-PATHS = {"a": "p/a", "b": "p/b", "c": "q/c"}
+# ("d" is another spelling of p/b: the group keys its files by the path string it is given, so these are two files)
+PATHS = {"a": "p/a", "b": "p/b", "c": "q/c", "d": "p/./b"}
 SCRIPT = {"x": "exports.f = function (v) { return v }", "y": "module.exports = { f: function (v) { return [v] } }"}
 
 
